@@ -328,6 +328,30 @@ class C09:
             j = r2.randrange(spec["nt"])
             pre.append(("solve", {}))
             pre.append(("set_tol", j, spec["tols"][j] * r2.choice([1e-3, 1e-2, 1e-1, 10.0])))
+        if r2.random() < 0.3:
+            # an earlier solve, then the user changes a knob by hand (preferably one that is switched off), then the solve under test
+            inact = [j for j, a in enumerate(spec["vary_active"]) if not a and ("enable", "vary", j) not in pre]
+            j = r2.choice(inact) if inact and r2.random() < 0.8 else r2.randrange(spec["nk"])
+            lim = spec["limits"][j]
+            v = round(r2.uniform(-1, 1), 3) if lim is None else round(r2.uniform(lim[0], lim[1]), 3)
+            if ("solve", {}) not in pre:
+                pre.append(("solve", {}))
+            pre.append(("set_knob", j, v))
+        if r2.random() < 0.25:
+            # coarse tolerances on some targets: "within tolerance" is then reached at points that are far from exact
+            for j in range(spec["nt"]):
+                if r2.random() < 0.6:
+                    spec["tols"][j] = r2.choice([0.5, 0.2, 0.05])
+        if r2.random() < 0.12:
+            # a knob that starts a hair inside one of its limits (the step component pushing it out is dropped, what is left of
+            # the step need not be a descent direction), coarse and unequal tolerances, few steps
+            lj = [j for j in range(spec["nk"]) if spec["limits"][j] is not None]
+            if lj:
+                j = r2.choice(lj)
+                lo, hi = spec["limits"][j]
+                spec["start"][j] = round(lo + 0.01, 6) if r2.random() < 0.5 else round(hi - 0.01, 6)
+                spec["tols"] = [r2.choice([2.0, 1.0, 0.5, 0.3]) for _ in range(spec["nt"])]
+                spec["opts"]["n_steps_max"] = r2.choice([1, 2, 3])
         multi = []
         for _ in range(r2.randint(0, 3)):
             multi.append(([r2.randint(0, 25) for _ in range(r2.randint(1, 2))], [r2.randint(0, 25) for _ in range(r2.randint(0, 2))]))
